@@ -3,4 +3,4 @@ CONSTANTS
   MaxSeg = 3
   MaxDepth = 3
   Mut = "none"
-INVARIANTS FirstMatch NoPrefix MatcherAgrees MapThenRoute
+INVARIANTS FirstMatch NoPrefix MatcherAgrees MapThenRoute PoolWhole
